@@ -108,7 +108,14 @@ func c16Ref(c c16Case) string {
 	return c.CallID + "\x01" + a + "\x01" + b
 }
 
-func c16Impl(c c16Case) (string, string) {
+func c16Impl(c c16Case) (id string, bad string) {
+	if cr := guard(func() { id, bad = c16ImplInner(c) }); cr != "" {
+		return "", "panic: " + cr
+	}
+	return
+}
+
+func c16ImplInner(c c16Case) (string, string) {
 	msg, err := ParseMessage(bufio.NewReader(bytes.NewReader(c16Bytes(c))))
 	if err != nil {
 		return "", "undecodable: " + err.Error()
